@@ -640,6 +640,10 @@ class Q:
     def log10(self): return ufun_apply('lg', self)
     def isfinite(self): return True
     def isnan(self): return False
+    # numpy-scalar look-alike attributes (np.float64 has them)
+    size = 1
+    ndim = 0
+    shape = ()
 
 
 class B:
@@ -1571,3 +1575,22 @@ class _StrMeta(type):
 class symstr(metaclass=_StrMeta):
     """Replacement for builtins.str inside shadow modules: str(x) keeps a
     symbolic string; isinstance(v, str) behaves as for the builtin."""
+
+
+class _FloatMeta(type):
+    def __instancecheck__(cls, obj):
+        return isinstance(obj, float)
+
+    def __call__(cls, x=0.0):
+        if isinstance(x, (Q, F64)):
+            return x
+        if isinstance(x, np.ndarray) and x.dtype == object and x.size == 1 \
+                and isinstance(x.item(), (Q, F64)):
+            return x.item()
+        return float(x)
+
+
+class symfloat(metaclass=_FloatMeta):
+    """Replacement for builtins.float inside shadow modules: float(x) keeps
+    a symbolic scalar; isinstance(v, float) and dtype=float behave as for
+    the builtin (the numpy proxies map it to float64)."""
